@@ -147,6 +147,14 @@ def plainValid (song : Song) : Bool :=
       ∧ e.type ≠ Tables.ev_PAN_ENVELOPE ∧ e.type ≠ Tables.ev_DRUM_MODE) &&
   ((song.tracks.filter (·.1 < 16)).all fun (_, r) => match Expand.perf song r with | .ok _ => true | .error _ => false)
 
+/-- a loop point below the top level of a channel track (known finding `segno-in-loop`) or in a
+subroutine track (known finding `segno-in-sub`): the player's `loop_position` is an index without
+a track or a stack, so the second pass resumes somewhere else than the schedule says -/
+def segnoLabel (song : Song) : String :=
+  if song.tracks.any (fun (id, t) => id ≥ 16 && t.any fun e => e.kind = .segno) then "segno-in-sub "
+  else if song.tracks.any (fun (id, t) => id < 16 && !Schedule.segnoAtDepth0 0 t) then "segno-in-loop "
+  else ""
+
 def judge (arg impl : String) : String :=
   match parseReq arg with
   | none => "skip"
@@ -157,7 +165,7 @@ def judge (arg impl : String) : String :=
       if impl == "exc:InputError" then "ok" else "fail invalid UTF-8 tag not reported as InputError: " ++ impl
     else if impl.startsWith "exc:" then
       if plainValid r.song ∧ r.tags.all (fun kv => match kv.2 with | "fm" :: rest => rest.length ≥ 42 | "psg" :: _ :: _ => true | _ => false)
-      then "fail export-failed a valid plain-subset song does not export: " ++ impl else "skip"
+      then "fail " ++ segnoLabel r.song ++ "export-failed a valid plain-subset song does not export: " ++ impl else "skip"
     else
       match getField impl "hex" with
       | none => "fail no-file"
@@ -170,10 +178,10 @@ def judge (arg impl : String) : String :=
           | .ok info =>
             match Schedule.judgeLog r.song (insTabOf r.tags) info with
             | .error "invalid" => "skip"
-            | .error why => s!"fail {why}"
+            | .error why => s!"fail {segnoLabel r.song}{why}"
             | .ok v =>
               match v.fail with
-              | some w => s!"fail {w}"
+              | some w => s!"fail {segnoLabel r.song}{w}"
               | none => s!"ok notes={v.notes} extent={v.extent}"
 
 /-! ### C08 judge on the same request: the file is well formed (`VgmSpec.analyse`), its eleven
